@@ -282,6 +282,10 @@ class Run(RunBase):
         tail_ = [] if x_ < 0.25 else [call(k2)] if x_ < 0.7 else [call(k2), call(k1)]   # possibly nothing before the image
         if self.prop == "C13":
             mid = [self.gen_fork(rng)]
+            if rng.random() < 0.4:
+                # the image is taken with the cache populated and the cache-affecting event comes AFTER it, before
+                # the copy has evaluated anything
+                return [call(k1), call(k2)] + mid + event + [call(k2), call(k1)]
         else:
             mid = [{"op": "save", "slot": "a", "mode": "new", "libver": "earliest", "driver": "fileobj"},
                    {"op": "restart", "slot": "a", "group": 0, "keep_open": False, "how": "hdf5"}]
@@ -321,9 +325,10 @@ class Run(RunBase):
         if kind == "clearcache":
             return {"op": "clearcache"}
         if kind == "regen":
-            if len(self.w["ranges"]) > 1:
-                return {"op": "regen", "N": rng.choice(self.w["ranges"])}
-            return {"op": "regen", "N": self.w["ranges"][0]}
+            op = {"op": "regen", "N": rng.choice(self.w["ranges"])}
+            if c13 and rng.random() < 0.15:
+                op["tags"] = False
+            return op
         if kind == "regrid":
             return {"op": "regrid", "n": rng.choice(self.w["grids"]), "adopt": rng.random() < 0.8}
         if kind == "foreign":
@@ -561,6 +566,17 @@ class Run(RunBase):
         for calc, _ in self.targets():
             calc.generate(N)
             calc.generatematrices()
+            if not op.get("tags", True) and self.prop == "C13" and N != self.N:
+                # the user re-ranged in place and has not refreshed the tags yet (nothing forces it): at this moment
+                # the calculator carries stale tags, and an image taken now must carry the same ones (C13: identical
+                # results AND tags). Checked on the spot with a throw-away image; the tags are refreshed afterwards,
+                # because the calculator's own tags2preene cannot work with stale ones.
+                self.faults["image-of-calculator-with-stale-tags"] += 1
+                self.checks += 1
+                tmp = self.roundtrip(calc.addhdf5, OnsagerCalc.VacancyMediated.loadhdf5)
+                if tmp.tags != calc.tags or tmp.tagdict != calc.tagdict or tmp.tagdicttype != calc.tagdicttype:
+                    self.fail("twin-tags", "an image taken between generate() and the refresh of the tags carries "
+                              "other tags than the calculator it was taken from")
             calc.tags, calc.tagdict, calc.tagdicttype = calc.generatetags()
         if N != self.N:
             self.rebuilt = True
